@@ -542,21 +542,22 @@ def op_scan(case, o):
     name, arr, n = case[1], case[2], case[3]
     a = build(arr, o.get("via", "flat"))
     snap = snapshot(a)
+    ax = 1 if o.get("axis1") else -1                # the row axis under its other name
     if name == "cumsum":
-        r = np.cumsum(a, axis=-1) if o.get("how", "np") == "np" else a.cumsum(axis=-1)
+        r = np.cumsum(a, axis=ax) if o.get("how", "np") == "np" else a.cumsum(axis=ax)
     elif name.startswith("acc_"):
-        r = UFUNCS[name[4:]].accumulate(a, axis=-1)
+        r = UFUNCS[name[4:]].accumulate(a, axis=ax)
     elif name == "sort":
-        r = a.sort(axis=-1)                      # np.sort is not among the functions the library implements
+        r = a.sort(axis=ax)                      # np.sort is not among the functions the library implements
     elif name == "unique":
-        r = np.unique(a, axis=-1)
+        r = np.unique(a, axis=ax)
     elif name == "unique_counts":
-        u, c = np.unique(a, axis=-1, return_counts=True)
+        u, c = np.unique(a, axis=ax, return_counts=True)
         pu, pc = proj_ragged(u), proj_ragged(c)
         out = ["ragged2", pu[1], pu[2], pc[2]]
         return out if same_snap(snap, snapshot(a)) else ["mutated", "operand changed"]
     elif name == "diff":
-        r = np.diff(a, n=int(n), axis=-1)
+        r = np.diff(a, n=int(n), axis=ax)
     else:
         raise ValueError(name)
     out = proj_any(r)
